@@ -104,9 +104,23 @@ class Ctx:
     # ---------------------------------------------------------------- go build / run
     def build(self, cmd, tags="verif"):
         """Build harness/cmd/<cmd> against /repo's current working tree; returns the binary path."""
-        os.makedirs(BUILD, exist_ok=True)
-        out = os.path.join(BUILD, cmd)
-        args = ["go", "build", "-o", out]
+        build_dir = BUILD
+        modargs = []
+        if os.path.realpath(REPO) != "/repo":
+            # mutant / seeded-change testing: build against another checkout (VERIF_REPO=<worktree>) without touching /repo
+            tag = hashlib.sha1(os.path.realpath(REPO).encode()).hexdigest()[:8]
+            build_dir = BUILD + "-" + tag
+            os.makedirs(build_dir, exist_ok=True)
+            alt = os.path.join(build_dir, "go.alt.mod")
+            with open(os.path.join(HARNESS, "go.mod")) as f:
+                mod = f.read().replace("=> /repo/", "=> %s/" % os.path.realpath(REPO))
+            with open(alt, "w") as f:
+                f.write(mod)
+            shutil.copy(os.path.join(HARNESS, "go.sum"), os.path.join(build_dir, "go.alt.sum"))
+            modargs = ["-modfile=" + alt]
+        os.makedirs(build_dir, exist_ok=True)
+        out = os.path.join(build_dir, cmd)
+        args = ["go", "build"] + modargs + ["-o", out]
         if tags:
             args += ["-tags", tags]
         args.append("./cmd/" + cmd)
